@@ -53,7 +53,7 @@ def call_costs(events, root, kind):
     for e in events:
         if e["k"] == "trade" and e["root"] is root:
             _, f, sp = ins.trade_costs(e, kind)
-            c += f + abs(sp)
+            c += abs(f) + abs(sp)      # a commission evaluated at a negative mark (swap-like instruments) is negative
             n += 1
     return c, n
 
